@@ -62,6 +62,14 @@ Proof. exact view_flush. Qed.
    store u and makes it equal to u's content overlaid with the unflushed writes *)
 Theorem C22_lazy_before_flush : forall o u, view (Lzy o false u) = merge_overlay o [].
 Proof. reflexivity. Qed.
+(* InitUnderlyingDb without a flush (SyncedPool.Initialize / GetUnderlying): the reader is re-pointed,
+   reads / iteration / snapshots see the overlay over the produced store, whatever it contains *)
+Theorem C22_lazy_init : forall o i u, view (st_init (Lzy o i u)) = merge_overlay o (view u) /\
+  (wf_st (Lzy o i u) -> wf_st (st_init (Lzy o i u))).
+Proof. exact view_lazy_init. Qed.
+Theorem C22_lazy_init_get : forall o i u k, wf_st (Lzy o i u) ->
+  st_get (st_init (Lzy o i u)) k = kv_get (merge_overlay o (view u)) k.
+Proof. exact (fun o i u k W => st_get_view (Lzy o true u) k W). Qed.
 Theorem C22_lazy_flush : forall ideal o i u, wf_st (Lzy o i u) ->
   exists u', st_flush ideal (Lzy o i u) = Lzy [] true u' /\ view u' = merge_overlay o (view u) /\ wf_st u'.
 Proof. exact view_lazy_flush. Qed.
@@ -121,6 +129,11 @@ Example C22_ex_state :
   st_iter (Flu o u) (Some [255]) None = [([255], [3]); ([255; 255], [])] /\
   st_get (Flu o u) [0] = None /\ st_nfp (Flu o u) = Some 3%nat.
 Proof. vm_compute. repeat split; repeat constructor. Qed.
+Example C22_ex_lazy_init :
+  let z := Lzy [([97], Some [1]); ([98], None)] false (Eng ELdb [([98], [2]); ([99], [3])]) in
+  view z = [([97], [1])] /\ view (st_init z) = [([97], [1]); ([99], [3])] /\
+  st_iter (st_init z) None None = [([97], [1]); ([99], [3])] /\ st_nfp (st_init z) = Some 2%nat.
+Proof. vm_compute. repeat split. Qed.
 Example C22_ex_heap :
   let H := {| h_trees := [[([97], Some [1])]]; h_cur := [([98], [2])]; h_snaps := [] |} in
   snap_get (hrun 0 (fst (get_snapshot 0 H)) [HPut [98] [3]; HFlush; HDel [97]; HDrop; HParentDel [98]])
@@ -147,6 +160,8 @@ Print Assumptions C22_iterate.
 Print Assumptions C22_write.
 Print Assumptions C22_flush.
 Print Assumptions C22_lazy_before_flush.
+Print Assumptions C22_lazy_init.
+Print Assumptions C22_lazy_init_get.
 Print Assumptions C22_lazy_flush.
 Print Assumptions C22_drop.
 Print Assumptions C22_not_flushed_pairs.
